@@ -38,7 +38,7 @@ Record region := Region {
   r_int : bool            (* INTEGRITY_OVER_LABEL *)
 }.
 Inductive dc := Primary | Dr | Other.
-Record store := Store { s_id : Z; s_dc : dc; s_down : bool; s_tomb : bool }.
+Record store := Store { s_id : Z; s_key : string (* the label key this store's dc label is filed under *); s_dc : dc; s_down : bool; s_tomb : bool }.
 
 Record config := Config {
   cf_dr : bool;           (* replication-mode = dr-auto-sync (false: majority) *)
@@ -78,8 +78,9 @@ Definition wr (f : fault) (idx : nat) : bool * bool :=
   end.
 
 (* ---------- store status ---------- *)
-Definition count_down (l : list store) (d : dc) : Z :=
-  Z.of_nat (length (filter (fun s => negb (s_tomb s) && s_down s &&
+(* checkStoreStatus: non-tombstone stores that are down and whose value under the configured label key is the dc's *)
+Definition count_down (lbl : string) (l : list store) (d : dc) : Z :=
+  Z.of_nat (length (filter (fun s => negb (s_tomb s) && s_down s && String.eqb (s_key s) lbl &&
                                       match s_dc s, d with Primary, Primary | Dr, Dr => true | _, _ => false end) l)).
 Definition can_sync (c : config) (dp dd : Z) : bool := (dp <? cf_p c) && (dd <? cf_d c).
 Definition has_majority (c : config) (dp dd : Z) : bool :=
@@ -159,8 +160,8 @@ Definition finished (s : state) : bool := key_empty (cur_key s) && (cur_cnt s >?
 (* ---------- tickDR ---------- *)
 Definition tick (s : state) (f : fault) : state :=
   if negb (cf_dr (cfg s)) then s else
-  let dp := count_down (stores s) Primary in
-  let dd := count_down (stores s) Dr in
+  let dp := count_down (cf_label (cfg s)) (stores s) Primary in
+  let dd := count_down (cf_label (cfg s)) (stores s) Dr in
   let cs := can_sync (cfg s) dp dd in
   let hm := has_majority (cfg s) dp dd in
   (* 1: to async *)
@@ -215,7 +216,7 @@ Definition run_cmd (s : state) (o : op) : state * res :=
   | OReport rid sid integ =>
       (set_regions s (map (fun r => if r_id r =? rid then Region (r_id r) (r_start r) (r_end r) sid integ else r) (regions s)), ROk)
   | OStore id down =>
-      (set_stores s (map (fun x => if s_id x =? id then Store (s_id x) (s_dc x) down (s_tomb x) else x) (stores s)), ROk)
+      (set_stores s (map (fun x => if s_id x =? id then Store (s_id x) (s_key x) (s_dc x) down (s_tomb x) else x) (stores s)), ROk)
   end.
 
 (* ---------- observations ---------- *)
@@ -315,14 +316,14 @@ Definition memZ' (x : Z) (l : list Z) : bool := existsb (Z.eqb x) l.
 Definition mon_step (m : mon) (o : op) (prev cur : obs) : mon * list string :=
   (* inputs *)
   let cfg' := match o with OConfig c _ => if res_eqb (o_res cur) ROk then c else m_cfg m | _ => m_cfg m end in
-  let stores' := match o with OStore id d => map (fun x => if s_id x =? id then Store (s_id x) (s_dc x) d (s_tomb x) else x) (m_stores m) | _ => m_stores m end in
+  let stores' := match o with OStore id d => map (fun x => if s_id x =? id then Store (s_id x) (s_key x) (s_dc x) d (s_tomb x) else x) (m_stores m) | _ => m_stores m end in
   let regions' := match o with
                   | OLayout l => l
                   | OReport rid sid integ => map (fun r => if r_id r =? rid then Region (r_id r) (r_start r) (r_end r) sid integ else r) (m_regions m)
                   | _ => m_regions m end in
   let ps := o_served prev in let cs := o_served cur in
   let changed := negb (opt_eqb status_eqb ps cs) in
-  let dp := count_down (m_stores m) Primary in let dd := count_down (m_stores m) Dr in
+  let dp := count_down (cf_label (m_cfg m)) (m_stores m) Primary in let dd := count_down (cf_label (m_cfg m)) (m_stores m) Dr in
   let csync := can_sync (m_cfg m) dp dd in let hmaj := has_majority (m_cfg m) dp dd in
   let is_tick := match o with OTick _ => true | _ => false end in
   let to (d : dstate) := match cs with Some x => changed && dstate_eqb (st_state x) d | None => false end in
